@@ -9,6 +9,7 @@ Values (Python): ("null",) ("bool",b) ("int",n) ("flt",pyfloat) ("dec",neg,m,e) 
 ("arr",[v..]) ("obj",[(key cps, v)..]).  `flt` only occurs in terms sent to / received from the
 implementation, `dec` (exact decimal, normalised) only in model values.
 """
+import math
 import re
 import struct
 from fractions import Fraction
@@ -578,6 +579,19 @@ def spell_dec(rng, v):
     return [ord(c) for c in s]
 
 
+def gen_float_token(rng):
+    """one spelling of a decimal that the library reads as a float: shortest digits of a double
+    (pool / dyadic / random bits), or a random mantissa of 8..70 bits with a small or a large exponent"""
+    k = rng.random()
+    if k < 0.5:
+        d = float_to_dec(gen_float(rng))
+    elif k < 0.8:
+        d = norm_dec(rng.random() < 0.5, rng.getrandbits(rng.choice([8, 20, 53, 60, 70])), rng.randint(-30, 25))
+    else:
+        d = norm_dec(rng.random() < 0.5, rng.getrandbits(rng.choice([8, 20, 53, 64])), rng.randint(-340, 300))
+    return spell_dec(rng, d)
+
+
 def spell(rng, v, variant):
     """text of value v (model value: ints and decs). variant=False: the generator's canonical
     spelling (ints/strings only); variant=True: random white space, escapes, number spellings."""
@@ -704,9 +718,38 @@ def item_goal(it, k):
             "error(E%d, _), true)" % (k, pl_term(it["value"]), k, k, k, k, k))
 
 
+NUMTOK = re.compile(r"-?[0-9]+(\.[0-9]+)?([eE][+-]?[0-9]+)?\Z")
+
+
+def is_number_token(cps):
+    return len(cps) <= 400 and NUMTOK.match("".join(map(chr, cps))) is not None
+
+
+def read_flt_line(r):
+    """driver answer 'P <m> <e>|inf N <m> <e>|inf' -> (pinned, nearest): magnitudes m*2^e as Python
+    floats (exact: m < 2^53, e <= 971), None = overflow"""
+    w = r.split(" ")
+
+    def one(j):
+        if w[j] == "inf":
+            return None, j + 1
+        return math.ldexp(int(w[j]), int(w[j + 1])), j + 2
+    if w[0] != "P":
+        raise ValueError(r)
+    pin, j = one(1)
+    if w[j] != "N":
+        raise ValueError(r)
+    near, _ = one(j + 1)
+    return pin, near
+
+
 def item_model_lines(it):
     if it["dir"] == "parse":
-        return ["parse\t%s\t%s" % (it["id"], cps_field(it["text"]))]
+        out = ["parse\t%s\t%s" % (it["id"], cps_field(it["text"]))]
+        if is_number_token(it["text"]):
+            # a lone number token: the Lean double model (today's assembled float, nearest double)
+            out.append("flt\t%sf\t%s" % (it["id"], cps_field(it["text"])))
+        return out
     if not has_kind(it["value"], "flt"):
         return ["gen\t%s\t%s" % (it["id"], " ".join(model_tokens(it["value"])))]
     return []
@@ -790,6 +833,9 @@ def build_items(rng, tier):
         if BIGEXP.search("".join(map(chr, m))):
             continue          # 10^99999…: the implementation would compute it
         add(parse_item(nid(), m, "edit"))
+    # lone float tokens (after everything else, so that the cases above do not depend on this sweep)
+    for _ in range(300 if tier == "quick" else 8000):
+        add(parse_item(nid(), gen_float_token(rng), "flt-token"))
     return items
 
 
@@ -817,6 +863,38 @@ def has_nonbmp(v):
 
 def show_term(t):
     return repr(t)[:160]
+
+
+def judge_flt_line(text, fr, impl_vals, stats):
+    """a lone float token: (1) the Lean rounding `nearestMag` must equal Python's float() (the two
+    conversions decimal -> double used by this check validate each other); (2) statistics on whether
+    the implementation's value is the nearest double or the value of the Lean mirror of today's
+    code (`pinnedMag`). The verdict on the implementation is NOT taken here."""
+    pin, near = read_flt_line(fr)
+    try:
+        pf = float(text.lstrip("-"))
+        if pf == float("inf"):
+            pf = None
+    except (OverflowError, ValueError):
+        pf = None
+    stats["flt_tokens"] += 1
+    if pf != near:
+        return ("disagreement", "model-rounding", "Lean nearestMag gives %r, Python float() gives %r" % (near, pf))
+    if impl_vals is None:
+        if pin is None:
+            stats["flt_impl_error_as_pinned_model"] += 1
+        return None
+    if len(impl_vals) == 1 and impl_vals[0][0] == "flt":
+        iv = abs(impl_vals[0][1])
+        if near is not None and iv == near:
+            stats["flt_impl_nearest"] += 1
+            if pin != near:
+                stats["flt_impl_nearest_where_pinned_model_differs"] += 1
+        elif pin is not None and iv == pin:
+            stats["flt_impl_not_nearest_equals_pinned_model"] += 1
+        else:
+            stats["flt_impl_not_nearest_unexplained"] += 1
+    return None
 
 
 def classify_parse(c, mres, b, stats):
@@ -848,6 +926,11 @@ def classify_parse(c, mres, b, stats):
     if expect is not None and expect != mv:
         return ("disagreement", "generator-vs-model", "python expected %r, model parsed %r" % (expect, mv))
     stats["valid"] += 1
+    fr = c.get("flt_res")
+    if fr and fr.startswith("P "):
+        r = judge_flt_line(text, fr, impl_vals, stats)
+        if r is not None:
+            return r
     if any_dec_out_of_range(mv):
         stats["float_out_of_range"] += 1      # no finite double: what the library should do is not fixed by the statement
         return None
@@ -957,7 +1040,10 @@ def run(ctx):
                 sp = None
             per_item[it["id"]] = sp[0] if sp else ("raw", impl2.get(s["id"]))
     stats = {k: 0 for k in ("valid", "rejected_by_failure", "rejected_by_error", "float_not_nearest", "float_out_of_range",
-                            "float_docs", "reader_mismatch", "skipped", "gen_text_compared", "gen_parsed_back_by_model")}
+                            "float_docs", "reader_mismatch", "skipped", "gen_text_compared", "gen_parsed_back_by_model",
+                            "flt_tokens", "flt_impl_nearest", "flt_impl_nearest_where_pinned_model_differs",
+                            "flt_impl_not_nearest_equals_pinned_model", "flt_impl_not_nearest_unexplained",
+                            "flt_impl_error_as_pinned_model")}
     stats["batches_rerun_item_by_item"] = len(redo)
     findings, agree = [], 0
     second = []
@@ -973,6 +1059,7 @@ def run(ctx):
                 raw = b[1] if b else "missing"
                 r = ("disagreement", "harness-" + str(raw).split("(")[0], str(raw)[:200])
             elif c["dir"] == "parse":
+                c["flt_res"] = model.get(i + "f")
                 r = classify_parse(c, model.get(i, "missing"), b, stats)
             else:
                 r = classify_gen(c, model.get(i), b, stats, second)
@@ -1016,6 +1103,8 @@ def run(ctx):
         single = make_batch("x", [dict(item)])
         findings.append(core.Finding(kind, sig, detail + " | input: " + shown,
                                      {"items": [item], "impl": single["impl"], "model": single["model"]}))
+    # report the smallest failing input of each class first (the framework keeps one replay per signature)
+    findings.sort(key=lambda f: (f.sig.get("class", ""), len(str(f.case.get("items")))))
     samples = []
     for c in items[:: max(1, len(items) // 8)][:8]:
         samples.append("".join(map(chr, c["text"])) if c["dir"] == "parse" else pl_term(c["value"]))
